@@ -1,6 +1,11 @@
 (* C15 — correspondence.
    case     = ((c0 (op ...)) ((a b ((cid how code rid) ...)) ...))     one observation per op
-   op       = (0 sync adj)          Call (sync = 1, on its own goroutine) / AsyncCall; adj = 0: the deadline
+   op       = (1 seq rid err dec (nested-op ...)) / (3 k (nested-op ...)): as (1 ...) / (3) below, and the
+              harness issues the nested ops (Dispatch / sweep / ReapTimeout) from INSIDE the first / the
+              k-th completion callback this op causes - events landing while a completion is in flight
+              (another dispatcher thread, the reaper goroutine's sweep).  Their observations follow the
+              op's own; (-9 0 ()) = not run because no such callback fired.
+            | (0 sync adj)          Call (sync = 1, on its own goroutine) / AsyncCall; adj = 0: the deadline
                                     the code computes (now + 60 s = 60000 in ms since the start of the
                                     history), else the deadline is placed at adj ms through the hook
             | (1 seq rid err dec)   Dispatch of response packet number rid: sequence number, error code
@@ -30,20 +35,32 @@ From FV Require Import Lib.Sx Generated.Consts C15.Model.
 Import ListNotations.
 Open Scope Z_scope.
 
-Inductive hop := HPrim (o : op) | HBurst (n : Z).
+(* an op of the history: a primitive op, possibly with ops that the harness issues from inside the
+   k-th completion callback this op causes (events landing while a completion is in flight) *)
+Inductive hop := HPrim (o : op) (k : Z) (nested : list op) | HBurst (n : Z).
 
 Definition natural_dl : Z := 60000.
 
+Definition prim_of (s : sx) : option op :=
+  match s with
+  | SList [SInt 0; SInt sy; SInt adj] => Some (OCall (sy =? 1) (if adj =? 0 then natural_dl else adj))
+  | SList [SInt 1; SInt seq; SInt rid; SInt err; SInt dec] => Some (ODispatch (mkresp seq rid err (dec =? 1)))
+  | SList [SInt 2; SInt now] => Some (OSweep now)
+  | SList [SInt 3] => Some OReap
+  | _ => None
+  end.
+
 Definition hop_of (s : sx) : option hop :=
   match s with
-  | SList [SInt 0; SInt sy; SInt adj] =>
-      Some (HPrim (OCall (sy =? 1) (if adj =? 0 then natural_dl else adj)))
-  | SList [SInt 1; SInt seq; SInt rid; SInt err; SInt dec] =>
-      Some (HPrim (ODispatch (mkresp seq rid err (dec =? 1))))
-  | SList [SInt 2; SInt now] => Some (HPrim (OSweep now))
-  | SList [SInt 3] => Some (HPrim OReap)
+  | SList [SInt 1; SInt seq; SInt rid; SInt err; SInt dec; SList nested] =>
+      match map_opt prim_of nested with
+      | Some l => Some (HPrim (ODispatch (mkresp seq rid err (dec =? 1))) 1 l)
+      | None => None
+      end
+  | SList [SInt 3; SInt k; SList nested] =>
+      match map_opt prim_of nested with Some l => Some (HPrim OReap k l) | None => None end
   | SList [SInt 4; SInt n] => Some (HBurst n)
-  | _ => None
+  | _ => match prim_of s with Some o => Some (HPrim o 0 []) | None => None end
   end.
 
 Definition comp_of (s : sx) : option comp :=
@@ -81,67 +98,120 @@ Definition burst1 (x : st * Z * Z) : st * Z * Z :=
   (s2, oseq o1, if good then bad else bad + 1).
 Definition burst (s : st) (n : Z) : st * Z * Z := N.iter (Z.to_N n) burst1 (s, 0, 0).
 
+Definition callbacks (cs : list comp) : Z := Z.of_nat (length (filter (fun c => khow c =? 1) cs)).
+Definition not_run (b : obs) : bool := (oa b =? -9) && match oc b with [] => true | _ => false end.
+Definition no_comps (b : obs) : bool := match oc b with [] => true | _ => false end.
+
 (* ---- walk 1: the model ---- *)
-Fixpoint walk_model (s : st) (ops : list hop) (os : list obs) : verdict :=
+Definition cmp_model (o : op) (x : out) (b : obs) : verdict :=
+  vjoin (check_that (negb (oa b =? -9)) (VMismatch 4))
+ (vjoin (check_that (match o with OCall _ _ => oseq x =? oa b | _ => true end) (VMismatch 1))
+ (vjoin (check_that (match o with OCall _ _ => true | _ => ores x =? ob b end) (VMismatch 2))
+        (check_that (comps_eqb (ocomps x) (oc b)) (VMismatch 3)))).
+
+(* the nested ops: executed (in order, right after the op that triggered them: a completion changes
+   nothing in the client, all of its effect happened when the context was stripped) iff the
+   triggering callback exists *)
+Fixpoint nest_model (run : bool) (s : st) (nested : list op) (os : list obs) : st * verdict * list obs :=
+  match nested, os with
+  | [], _ => (s, VOk, os)
+  | o :: r, b :: os' =>
+      if run then
+        let '(s', x) := step s o in
+        let '(s2, v, rest) := nest_model run s' r os' in
+        (s2, vjoin (cmp_model o x b) v, rest)
+      else
+        let '(s2, v, rest) := nest_model run s r os' in
+        (s2, vjoin (check_that (not_run b) (VMismatch 4)) v, rest)
+  | _ :: _, [] => (s, VBad, [])
+  end.
+
+Fixpoint walk_model (fuel : nat) (s : st) (ops : list hop) (os : list obs) : verdict :=
+  match fuel with O => VBad | S fuel =>
   match ops, os with
   | [], [] => VOk
-  | HPrim o :: ops', b :: os' =>
+  | HPrim o k nested :: ops', b :: os' =>
       let '(s', x) := step s o in
-      vjoin (check_that (match o with OCall _ _ => oseq x =? oa b | _ => true end) (VMismatch 1))
-     (vjoin (check_that (match o with OCall _ _ => true | _ => ores x =? ob b end) (VMismatch 2))
-     (vjoin (check_that (comps_eqb (ocomps x) (oc b)) (VMismatch 3))
-            (walk_model s' ops' os')))
+      let '(s2, v, rest) := nest_model (match nested with [] => false | _ => k <=? callbacks (ocomps x) end)
+                                       s' nested os' in
+      vjoin (cmp_model o x b) (vjoin v (walk_model fuel s2 ops' rest))
   | HBurst n :: ops', b :: os' =>
       let '(s', lastseq, bad) := burst s n in
       vjoin (check_that (lastseq =? oa b) (VMismatch 1))
      (vjoin (check_that (bad =? ob b) (VMismatch 2))
-            (walk_model s' ops' os'))
+            (walk_model fuel s' ops' os'))
   | _, _ => VBad
-  end.
+  end end.
 
 (* ---- walk 2: the property on the implementation's own outputs ---- *)
 Definition memz (x : Z) (l : list Z) : bool := existsb (Z.eqb x) l.
 Fixpoint nodupz (l : list Z) : bool :=
   match l with [] => true | x :: r => negb (memz x r) && nodupz r end.
 
-(* [swept]: sequence numbers whose call was moved to the expired list and not issued again *)
-Fixpoint walk_prop (s : st) (swept : list Z) (ops : list hop) (os : list obs) : verdict :=
+(* one primitive op against the statement; [swept]: sequence numbers whose call was moved to the
+   expired list and not issued again.  Returns the next state, the next swept list, the expected
+   number of callbacks and the verdict *)
+Definition prop_one (s : st) (swept : list Z) (o : op) (b : obs) : st * list Z * Z * verdict :=
+  match o with
+  | OCall sync dl =>
+      if oa b =? 0 then
+        (* refused: only when every sequence number is taken; completed at once *)
+        let '(s', x) := call_refused s sync dl in
+        (s', swept, callbacks (ocomps x),
+         vjoin (check_that (65535 <=? Z.of_nat (length (pending s))) (VPropFail 1))
+               (check_that (comps_eqb (ocomps x) (oc b)) (VPropFail 3)))
+      else
+        let '(s', _) := call_with s sync dl (oa b) in
+        (s', filter (fun z => negb (z =? oa b)) swept, 0,
+         vjoin (check_that ((0 <? oa b) && (oa b <? 65536)) (VPropFail 1))
+        (vjoin (check_that (negb (has (oa b) (pending s))) (VPropFail 2))
+               (check_that (no_comps b) (VPropFail 7))))
+  | ODispatch r =>
+      let '(s', x) := step s o in
+      let good := (ores x =? ob b) && comps_eqb (ocomps x) (oc b) in
+      let code := if has (rseq r) (pending s) then 3%N
+                  else if memz (rseq r) swept then 6%N else 4%N in
+      (s', swept, callbacks (ocomps x), check_that good (VPropFail code))
+  | OSweep now =>
+      let '(s', x) := step s o in
+      (s', swept ++ map fst (filter (overdue now) (pending s)), 0, check_that (no_comps b) (VPropFail 7))
+  | OReap =>
+      let '(s', x) := step s o in
+      (s', swept, callbacks (ocomps x),
+       check_that ((ores x =? ob b) && comps_eqb (ocomps x) (oc b)) (VPropFail 5))
+  end.
+
+Fixpoint nest_prop (run : bool) (s : st) (swept : list Z) (nested : list op) (os : list obs)
+  : st * list Z * verdict * list obs :=
+  match nested, os with
+  | [], _ => (s, swept, VOk, os)
+  | o :: r, b :: os' =>
+      if run then
+        if oa b =? -9 then (s, swept, VPropFail 7, [])   (* the callback that should have run did not *)
+        else
+        let '(s', sw', _, v1) := prop_one s swept o b in
+        let '(s2, sw2, v, rest) := nest_prop run s' sw' r os' in
+        (s2, sw2, vjoin v1 v, rest)
+      else
+        let '(s2, sw2, v, rest) := nest_prop run s swept r os' in
+        (* no callback was due: anything observed here is a completion that should not have happened *)
+        (s2, sw2, vjoin (check_that (not_run b) (VPropFail 7)) v, rest)
+  | _ :: _, [] => (s, swept, VBad, [])
+  end.
+
+Fixpoint walk_prop (fuel : nat) (s : st) (swept : list Z) (ops : list hop) (os : list obs) : verdict :=
+  match fuel with O => VBad | S fuel =>
   match ops, os with
-  | HPrim o :: ops', b :: os' =>
-      match o with
-      | OCall sync dl =>
-          if oa b =? 0 then
-            (* refused: only when every sequence number is taken; completed at once *)
-            let '(s', x) := call_refused s sync dl in
-            vjoin (check_that (65535 <=? Z.of_nat (length (pending s))) (VPropFail 1))
-           (vjoin (check_that (comps_eqb (ocomps x) (oc b)) (VPropFail 3))
-                  (walk_prop s' swept ops' os'))
-          else
-            let '(s', _) := call_with s sync dl (oa b) in
-            vjoin (check_that ((0 <? oa b) && (oa b <? 65536)) (VPropFail 1))
-           (vjoin (check_that (negb (has (oa b) (pending s))) (VPropFail 2))
-           (vjoin (check_that (match oc b with [] => true | _ => false end) (VPropFail 7))
-                  (walk_prop s' (filter (fun z => negb (z =? oa b)) swept) ops' os')))
-      | ODispatch r =>
-          let '(s', x) := step s o in
-          let good := (ores x =? ob b) && comps_eqb (ocomps x) (oc b) in
-          let code := if has (rseq r) (pending s) then 3%N
-                      else if memz (rseq r) swept then 6%N else 4%N in
-          vjoin (check_that good (VPropFail code)) (walk_prop s' swept ops' os')
-      | OSweep now =>
-          let '(s', x) := step s o in
-          vjoin (check_that (match oc b with [] => true | _ => false end) (VPropFail 7))
-                (walk_prop s' (swept ++ map fst (filter (overdue now) (pending s))) ops' os')
-      | OReap =>
-          let '(s', x) := step s o in
-          vjoin (check_that ((ores x =? ob b) && comps_eqb (ocomps x) (oc b)) (VPropFail 5))
-                (walk_prop s' swept ops' os')
-      end
+  | HPrim o k nested :: ops', b :: os' =>
+      if oa b =? -9 then VBad else
+      let '(s', sw', ncb, v1) := prop_one s swept o b in
+      let '(s2, sw2, v, rest) := nest_prop (match nested with [] => false | _ => k <=? ncb end) s' sw' nested os' in
+      vjoin v1 (vjoin v (walk_prop fuel s2 sw2 ops' rest))
   | HBurst n :: ops', b :: os' =>
       vjoin (check_that ((ob b =? 0) && ((n =? 0) || negb (oa b =? 0))) (VPropFail 2))
-            (walk_prop (mkst (counter s) (pending s) (expired s) (ncalls s + n)) swept ops' os')
+            (walk_prop fuel (mkst (counter s) (pending s) (expired s) (ncalls s + n)) swept ops' os')
   | _, _ => VOk
-  end.
+  end end.
 
 Definition check (c : sx) : verdict :=
   match c with
@@ -157,9 +227,10 @@ Definition check (c : sx) : verdict :=
   | SList [SList [SInt c0; SList ops]; SList os] =>
       match map_opt hop_of ops, map_opt obs_of os with
       | Some ops, Some os =>
-          vjoin (walk_prop (init c0) [] ops os)
+          let fuel := S (length ops) in
+          vjoin (walk_prop fuel (init c0) [] ops os)
          (vjoin (check_that (nodupz (map kcid (flat_map oc os))) (VPropFail 7))
-                (walk_model (init c0) ops os))
+                (walk_model fuel (init c0) ops os))
       | _, _ => VBad
       end
   | _ => VBad
